@@ -600,3 +600,333 @@ var chnkRe = regexp.MustCompile(`/chnk0*(\d+)$`)
 func logicalJob(id string) string {
 	return chnkRe.ReplaceAllString(id, "/chnk$1")
 }
+
+// ---------------------------------------------------------------------------
+// C06
+
+type failSpec struct {
+	Job       string `json:"job"`
+	Fail      string `json:"fail"`
+	Repeated  bool   `json:"repeated"`
+	AutoRetry int    `json:"autoretry"`
+}
+
+var failKinds = []string{"errpipe", "assert", "exit", "exit_after_outs", "segv", "kill9", "kill_mrjob",
+	"trunc_outs", "no_outs", "missing_key", "wrong_type", "errpipe_exit0", "bad_stage_defs"}
+
+type failOutcome struct {
+	violations   []string
+	inconclusive string
+	faultFired   bool
+}
+
+// dependentsOf returns the fork keys (callpath/forkdir) of all invocations
+// that transitively depend on the fork owning job.
+func dependentsOf(fp *faultProgram, forkKey string) map[string]bool {
+	// map fork -> invocation
+	var root *pgen.StageInvocation
+	byInv := map[*pgen.StageInvocation]string{}
+	for _, inv := range fp.model.Invs {
+		if f, ok := inv.Token.(*vmon.Fork); ok && f != nil {
+			byInv[inv] = f.Key
+			if f.Key == forkKey {
+				root = inv
+			}
+		}
+	}
+	out := map[string]bool{}
+	if root == nil {
+		return out
+	}
+	tainted := map[*pgen.StageInvocation]bool{root: true}
+	for changed := true; changed; {
+		changed = false
+		for _, inv := range fp.model.Invs {
+			if tainted[inv] {
+				continue
+			}
+			for i, d := range inv.Deps {
+				if tainted[d] && inv.DepKinds[i] != "mapsrc-indep" {
+					tainted[inv] = true
+					changed = true
+					break
+				}
+			}
+		}
+	}
+	for inv := range tainted {
+		if inv != root {
+			if k, ok := byInv[inv]; ok {
+				out[k] = true
+			}
+		}
+	}
+	return out
+}
+
+func runFailCase(c *vf.Ctx, fp *faultProgram, idx int, fs failSpec) *failOutcome {
+	oc := &failOutcome{}
+	dir := filepath.Join(c.WorkDir, fmt.Sprintf("fail-%d-%d", fp.seed, idx))
+	defer os.RemoveAll(dir)
+	cs, err := vrun.NewCase(c.BuildDir, dir, fp.prog, fp.tweak)
+	if err != nil {
+		oc.inconclusive = "harness: " + err.Error()
+		return oc
+	}
+	defer cs.KillAll()
+	add := func(sig, what string) { oc.violations = append(oc.violations, sig+"|"+what) }
+	baseRules := append([]pgen.Rule(nil), cs.Spec.Rules...)
+	rule := pgen.Rule{Job: fs.Job, Fail: fs.Fail, Attempt: 1}
+	if fs.Repeated {
+		rule.Attempt = 0
+	}
+	cs.Spec.Rules = append([]pgen.Rule{rule}, baseRules...)
+	cs.WriteSpec()
+	args := append(mrpArgs(fp.vdr), fmt.Sprintf("--autoretry=%d", fs.AutoRetry))
+	if fs.Fail == "wrong_type" || fs.Fail == "missing_key" {
+		args = append(args, "--strict=error")
+	}
+	top := fp.prog.Pipeline(fp.prog.Top.Callee)
+	r := cs.Run(vrun.RunOpts{Args: args, Seed: fp.seed, Timeout: 120 * time.Second})
+	if r.TimedOut {
+		if n := idleLoops(cs.Trace(), 0); n >= 20 {
+			add("hang-after-fault:"+fs.Fail, fmt.Sprintf("with fault %v mrp neither failed nor completed: %d idle loop iterations; log tail: %s", fs, n, tail(stripDump(r.Output), 500)))
+		} else {
+			oc.inconclusive = "watchdog"
+		}
+		return oc
+	}
+	evs := cs.Events()
+	for _, e := range evs {
+		if e.Ev == "fault" && e.Job == fs.Job {
+			oc.faultFired = true
+		}
+	}
+	if !oc.faultFired {
+		oc.inconclusive = "fault site not reached"
+		return oc
+	}
+	forkKey := fs.Job[:strings.LastIndexByte(fs.Job, '/')]
+	callPath := ""
+	if f := fp.obs.Forks[forkKey]; f != nil {
+		callPath = f.CallPath
+	}
+	phase := fp.jobPhase[fs.Job]
+	success := r.Exit == 0
+	saidSuccess := strings.Contains(r.Output, "Pipestance completed successfully")
+	transientOK := fs.AutoRetry > 0 && !fs.Repeated
+	if success || saidSuccess {
+		if !transientOK {
+			add("fault-not-noticed:"+fs.Fail+":"+phase, fmt.Sprintf("job %s failed by %s but mrp exited %d (reported success=%v)", fs.Job, fs.Fail, r.Exit, saidSuccess))
+			return oc
+		}
+		// one-shot fault + auto retry: must equal the baseline
+		if got := canonOuts(cs, top.Name); got != fp.baseOuts {
+			add("autoretry-result-differs:"+fs.Fail, fmt.Sprintf("fault %v was retried to success but outputs differ from the fault-free run: %s vs %s", fs, truncate(got, 500), truncate(fp.baseOuts, 500)))
+		}
+		return oc
+	}
+	// Failed, as it must.  The report names the failing stage.
+	if callPath != "" {
+		fq := strings.ReplaceAll(callPath, "/", ".")
+		if !strings.Contains(r.Output, callPath) && !strings.Contains(r.Output, fq) {
+			add("error-does-not-name-stage:"+fs.Fail, fmt.Sprintf("mrp failed but its report does not name the failing stage call %s: %s", callPath, tail(r.Output, 700)))
+		}
+	}
+	// Dependents never started.
+	deps := dependentsOf(fp, forkKey)
+	firstFault := int64(0)
+	for _, e := range evs {
+		if e.Ev == "fault" && e.Job == fs.Job && firstFault == 0 {
+			firstFault = e.T
+		}
+	}
+	for _, e := range evs {
+		if e.Ev != "start" {
+			continue
+		}
+		fk := e.Job[:strings.LastIndexByte(e.Job, '/')]
+		if deps[fk] {
+			add("dependent-started:"+fs.Fail+":"+phase, fmt.Sprintf("job %s depends on the failed job %s but was started", e.Job, fs.Job))
+			break
+		}
+		if fk == forkKey && e.T > firstFault {
+			// later phase of the same fork
+			if (phase == "split" && e.Phase != "split") || (phase == "main" && e.Phase == "join") {
+				add("later-phase-started:"+fs.Fail+":"+phase, fmt.Sprintf("job %s started although %s of the same fork failed", e.Job, fs.Job))
+				break
+			}
+		}
+	}
+	// Restart with the fault removed.
+	if !cs.WaitOrphans(20 * time.Second) {
+		cs.KillAll()
+	}
+	exitWall := time.Now()
+	done := map[string]bool{}
+	for j, mt := range completedJobs(cs) {
+		if mt.Before(exitWall.Add(-60*time.Millisecond)) && logicalJob(j) != logicalJob(fs.Job) {
+			done[logicalJob(j)] = true
+		}
+	}
+	if _, err := os.Stat(filepath.Join(cs.PsDir, "_lock")); err == nil {
+		add("lock-left-after-failure", "mrp exited after a job failure but left _lock")
+		os.Remove(filepath.Join(cs.PsDir, "_lock"))
+	}
+	cs.Spec.Rules = baseRules
+	cs.WriteSpec()
+	t0 := vrun.Mono()
+	r2 := cs.Run(vrun.RunOpts{Args: append(mrpArgs(fp.vdr), "--autoretry=0"), Seed: fp.seed, Timeout: 120 * time.Second})
+	if r2.TimedOut {
+		if n := idleLoops(cs.Trace(), 0); n >= 20 {
+			add("stalled-after-fault-removed:"+fs.Fail, fmt.Sprintf("restart after removing fault %v made no progress for %d loop iterations", fs, n))
+		} else {
+			oc.inconclusive = "watchdog"
+		}
+		return oc
+	}
+	if r2.Exit != 0 {
+		add("restart-failed-after-fault-removed:"+fs.Fail+":"+phase,
+			fmt.Sprintf("after removing fault %v the restart exited %d: %s", fs, r2.Exit, tail(r2.Output, 800)))
+		return oc
+	}
+	for _, e := range cs.Events() {
+		if e.Ev == "start" && e.T > t0 && done[logicalJob(e.Job)] {
+			fk := e.Job[:strings.LastIndexByte(e.Job, '/')]
+			kind := "independent"
+			if fk == forkKey {
+				kind = "same-fork"
+			}
+			add("completed-job-reexecuted:"+fs.Fail+":"+kind, fmt.Sprintf("job %s had completed before %s failed, yet it was executed again after the restart", e.Job, fs.Job))
+			break
+		}
+	}
+	if got := canonOuts(cs, top.Name); got != fp.baseOuts {
+		add("result-after-restart-differs:"+fs.Fail+":"+phase, fmt.Sprintf("after fault %v, fault removal and restart the outputs are %s; fault-free run: %s", fs, truncate(got, 600), truncate(fp.baseOuts, 600)))
+	}
+	if d := treeDiff(fp.baseTree, outsTree(cs)); d != "" {
+		add("outs-tree-after-restart-differs:"+fs.Fail, fmt.Sprintf("after fault %v and restart outs/ differs: %s", fs, d))
+	}
+	return oc
+}
+
+func init() {
+	register("C06", "fault_enumeration", func(c *vf.Ctx) {
+		c.SetRule("for each generated program with a fault-free baseline: a case = (failure site = one job, manifestation in {error pipe text, ASSERT:, exit code with/without outs, SIGSEGV/SIGKILL of the stage, SIGKILL of mrjob, truncated / missing / missing-key / wrong-type _outs (the last two under --strict=error), bad or missing _stage_defs}, one-shot or repeated, --autoretry 0|2). Verdict: mrp exits non-zero and never prints success (a one-shot fault under auto-retry may instead end in success equal to the baseline); the report names the failing stage call; no job of a transitively dependent call (reference model's dataflow) or later phase of the same fork starts; after removing the fault a restart completes with the baseline outputs and does not re-execute jobs that had completed. distinct = (program, job, manifestation, options); non-trivial = the fault actually fired.")
+		c.Assume("stages run under mrjob (src comp); python adapter and bare exec stages are not covered by this check")
+		c.Assume("ill-typed but parseable outputs are asserted under --strict=error only")
+		nProg := c.Pick(4, 30)
+		rng := rand.New(rand.NewSource(c.Seed + 6))
+		type job struct {
+			fp  *faultProgram
+			idx int
+			fs  failSpec
+		}
+		var jobs []job
+		for pi := 0; pi < nProg; pi++ {
+			cfg := faultConfig()
+			cfg.PDisabled = 10
+			tmpl := 0
+			if pi%3 == 2 {
+				tmpl = 1 + (pi/3)%pgen.NTemplates
+			}
+			fp := makeFaultProgram(c, c.Seed*11+int64(pi)*15485863, cfg, []string{"rolling", "disable", "strict"}[pi%3],
+				func(s *pgen.Spec) {
+					s.ChunkChoices = []int{1, 2, 3}
+					s.PNull = 0
+				}, 5, tmpl)
+			if fp == nil {
+				c.Inconclusive("no baseline program")
+				continue
+			}
+			c.Count("programs", 1)
+			exhaustive := !c.Quick() && pi < 8 && len(fp.jobs) <= 40
+			idx := 0
+			if exhaustive {
+				c.Count("programs_exhaustive_over_sites_and_manifestations", 1)
+				for _, j := range fp.jobs {
+					for _, k := range failKinds {
+						jobs = append(jobs, job{fp, idx, failSpec{Job: j, Fail: k, Repeated: true}})
+						idx++
+					}
+				}
+			} else {
+				n := c.Pick(24, 60)
+				// sites that need something specific: chunks of multi-chunk forks
+				var multi []string
+				for _, f := range fp.obs.Forks {
+					if f.Split != nil && len(f.Chunks) >= 2 {
+						for _, cj := range f.Chunks {
+							if cj != nil {
+								multi = append(multi, cj.ID)
+							}
+						}
+					}
+				}
+				sort.Strings(multi)
+				for k := 0; k < n; k++ {
+					j := fp.jobs[rng.Intn(len(fp.jobs))]
+					if len(multi) > 0 && k%2 == 1 {
+						j = multi[rng.Intn(len(multi))]
+					}
+					kind := failKinds[(k+pi)%len(failKinds)]
+					fs := failSpec{Job: j, Fail: kind, Repeated: k%3 != 0}
+					if k%5 == 4 {
+						fs.AutoRetry = 2
+					}
+					jobs = append(jobs, job{fp, idx, fs})
+					idx++
+				}
+			}
+		}
+		var mu sync.Mutex
+		fired := map[string]int{}
+		par := runtime.NumCPU() * 3 / 4
+		ch := make(chan job)
+		var wg sync.WaitGroup
+		for w := 0; w < par; w++ {
+			wg.Add(1)
+			go func() {
+				defer wg.Done()
+				for jb := range ch {
+					if jb.fs.Fail == "bad_stage_defs" && jb.fp.jobPhase[jb.fs.Job] != "split" {
+						continue
+					}
+					if jb.fs.Fail == "no_outs" && jb.fp.jobPhase[jb.fs.Job] == "split" {
+						// A split that exits 0 without _stage_defs is only
+						// failed by a heartbeat timeout of many minutes:
+						// not decidable within a run budget (see DESIGN.md).
+						mu.Lock()
+						c.Count("skipped_missing_stage_defs_needs_heartbeat_timeout", 1)
+						mu.Unlock()
+						continue
+					}
+					oc := runFailCase(c, jb.fp, jb.idx, jb.fs)
+					mu.Lock()
+					c.Eval(1)
+					if oc.inconclusive != "" {
+						c.Inconclusive(oc.inconclusive)
+					}
+					if oc.faultFired {
+						c.Distinct(fmt.Sprintf("%d|%v", jb.fp.seed, jb.fs))
+						fired[jb.fs.Fail+":"+jb.fp.jobPhase[jb.fs.Job]]++
+					}
+					c.Sample(map[string]interface{}{"program_seed": jb.fp.seed, "fault": jb.fs, "phase": jb.fp.jobPhase[jb.fs.Job]})
+					for _, v := range oc.violations {
+						parts := strings.SplitN(v, "|", 2)
+						c.Violate("C06:"+parts[0], parts[1], map[string]interface{}{
+							"program_seed": jb.fp.seed, "mro": jb.fp.prog.Print(), "fault": jb.fs, "vdrmode": jb.fp.vdr,
+						})
+					}
+					mu.Unlock()
+				}
+			}()
+		}
+		for _, jb := range jobs {
+			ch <- jb
+		}
+		close(ch)
+		wg.Wait()
+		c.Set("faults_fired_by_manifestation_and_phase", fired)
+	})
+}
